@@ -593,6 +593,9 @@ class Checker:
         self.drain_failing = None
         self.drain_done = False
         if failing is not None:
+            still = sorted(c for (t_, c) in getattr(self, "masked_open", set()) if t_ == failing.tok)
+            if still:
+                self.soft("C05.phase-barrier", f"callbacks {still} of event {failing.event}/{failing.tok} were still running when its failure was reported to the caller")
             # failure lands: queue dropped, state per phase rule (already tracked), lock released
             for item in self.queue:
                 self.dropped.add(item["tok"])
@@ -754,6 +757,7 @@ class Checker:
             self.rej("C04.dropped-never-run", f"callback {cid} ran for token {tok} that was dropped by an earlier failure")
         for f in self.failed_ctx:
             if f.tok == tok and cid in f.fail_phase_set:
+                self.soft("C05.phase-barrier", f"callback {cid} of event {f.event}/{tok} started after that event's failure had been reported")
                 return "masked"
         if getattr(self, "drain_failing", None) is not None and self.drain_failing.tok == tok and cid in self.drain_failing.fail_phase_set:
             return "masked"
@@ -1063,6 +1067,9 @@ class Checker:
         df = getattr(self, "drain_failing", None)
         if (df is not None and df.tok == tok) or (ctx is not None and ctx.failing and ctx.tok == tok):
             self.stats["masked_siblings"] += 1    # sibling of a guard/validator that raised
+            return
+        if any(f.tok == tok for f in self.failed_ctx):
+            self.soft("C05.phase-barrier", f"coroutine guard {gid} of event token {tok} completed after that event's failure had been reported")
             return
         ok = (
             ctx is not None and ctx.tok == tok and not ctx.failing and ctx.phase in ("validators", "cond")
